@@ -1,1 +1,147 @@
+import GoawkModel.C02
+import Proofs.C02Sound
+import Proofs.C02Depth
+import Proofs.C02Shape
 /-! Property theorems for C02 (see /verif/DESIGN.md). Only property theorems and non-vacuity examples live here. -/
+namespace GoawkModel.C02
+open GoawkModel.Generated
+
+/-! ## 1. the bytecode verifier is sound: verified code never gets stuck -/
+
+/-- Progress for every run: if `verify` accepts the emitted code of a program then no run of the abstract machine from any of its
+top-level blocks (BEGIN, patterns, actions, END) — any number of steps, any branch outcomes, any loop counts, any run-time errors,
+calls into every function — reaches `stuck` (stack underflow, ip outside the block or off an instruction, table index out of range,
+unbalanced block exit). -/
+theorem verify_sound (p : Prog) (hv : verify p = true) (b : Code × Nat) (hb : b ∈ p.blocks) (cs : List Choice) :
+    run p.tables (initState b.1 b.2) cs ≠ .stuck := by
+  obtain ⟨hblocks, hfuncs⟩ := verify_blocks hv
+  exact run_good hfuncs cs (good_init (hblocks b hb))
+
+/-- The invariant behind `verify_sound`, one step at a time. -/
+theorem verified_step_preserves (p : Prog) (hv : verify p = true) (s : State) (hg : Good p.tables s) (c : Choice) :
+    match step p.tables s c with
+    | .next s' => Good p.tables s'
+    | .stuck => False
+    | _ => True :=
+  step_good (verify_blocks hv).2 hg c
+
+/-- Every program the compiler emits verifies. `emitted p` stands for "p is the code dump of some program the parser accepted";
+the compiler is not modelled here (C01 models it), so this is checked per explored program by translation validation in the
+harness (the real dump is sent to `verify`). -/
+def compile_verifies (emitted : Prog → Prop) : Prop := ∀ p, emitted p → verify p = true
+
+theorem emitted_code_never_stuck (emitted : Prog → Prop) (h : compile_verifies emitted) (p : Prog) (hp : emitted p)
+    (b : Code × Nat) (hb : b ∈ p.blocks) (cs : List Choice) : run p.tables (initState b.1 b.2) cs ≠ .stuck :=
+  verify_sound p (h p hp) b hb cs
+
+/-- the real emitted code of
+`function f(a, n, k) { for (k in a) if (k > n) return k; return 0 } BEGIN { A[1]; print f(A, 0) } $1 > 2 { x += $1 }` -/
+def exampleProg : Prog :=
+  { tables := { nNums := 2, nStrs := 1, nRegexes := 0, nScalars := 1, nArrays := 4, nNative := 1,
+                funcs := [{ numScalars := 2, numArrays := 1,
+                            body := [74, 1, 1, 1, 0, 10, 12, 1, 12, 0, 51, 62, 3, 12, 1, 83, 1, 0, 83] }] },
+    blocks := [([2, 0, 14, 0, 4, 1, 0, 85, 1, 81, 0, 1, 3, 0, 86, 1, 0], 0), ([8, 1, 1, 1, 51], 1), ([8, 1, 34, 0, 0], 0)] }
+
+example : verify exampleProg = true := by decide +kernel
+/-- the verifier is not trivially true: dropping the `Drop` of the first statement unbalances BEGIN -/
+example : verify { exampleProg with blocks := [([2, 0, 14, 0, 1, 0, 85, 1, 81, 0, 1, 3, 0, 86, 1, 0], 0)] } = false := by decide +kernel
+/-- … and a jump into the middle of an instruction is rejected -/
+example : verify { exampleProg with blocks := [([61, 1, 1, 0, 4], 0)] } = false := by decide +kernel
+
+/-! ## 2. call depth -/
+
+/-- `callDepth ≤ maxCallDepth` is an invariant of every step … -/
+theorem depth_step (t : Tables) (s s' : State) (c : Choice) (hb : callDepth s ≤ Consts.maxCallDepth)
+    (h : step t s c = .next s') : callDepth s' ≤ Consts.maxCallDepth := step_depth hb h
+
+/-- … hence of every run, from every top-level block, of ANY code (verified or not). -/
+theorem depth_bounded (t : Tables) (code : Code) (endH : Nat) (cs : List Choice) (s' : State)
+    (h : run t (initState code endH) cs = .next s') : callDepth s' ≤ Consts.maxCallDepth :=
+  run_depth cs (by simp [initState, callDepth, isFunc]) h
+
+/-- A call at the maximum depth is reported as an error value, not a fault. -/
+theorem depth_exceeded_is_error (t : Tables) (fr : Frame) (rest : State) (c : Choice) (len f : Nat) (fi : FuncInfo)
+    (hf : t.funcs[f]? = some fi) (hh : fi.numScalars ≤ fr.h) (hd : callDepth (fr :: rest) ≥ Consts.maxCallDepth) :
+    exec t fr rest c (.call len f) = .error := by
+  simp [exec, hf, Nat.not_lt.mpr hh, hd]
+
+/-- the hypotheses of `depth_exceeded_is_error` are met by a stack of `maxCallDepth` function activations -/
+example : callDepth (List.replicate Consts.maxCallDepth
+    { code := [], cx := topCtx, pc := 0, h := 0, kind := .func 0, endH := 0 }) ≥ Consts.maxCallDepth := by decide +kernel
+
+/-! ## 3. numbers that reach field indexes, NF, ARGC -/
+
+theorem floatToInt_range (x : Num) : minInt ≤ floatToInt x ∧ floatToInt x ≤ maxInt := by
+  cases x with
+  | nan => simp [floatToInt, minInt, maxInt]
+  | inf neg => cases neg <;> simp [floatToInt, minInt, maxInt]
+  | fin neg m e =>
+    simp only [floatToInt]
+    split
+    · simp [minInt, maxInt]
+    · split
+      · simp [minInt, maxInt]
+      · constructor <;> omega
+
+theorem getField_total (n : Nat) (i : Int) : getField n i ≠ .stuck := by
+  unfold getField
+  dsimp only
+  repeat' split
+  all_goals first | (intro h; cases h; done) | (exfalso; omega)
+
+theorem setField_total (n : Nat) (i : Int) : setField n i ≠ .stuck := by
+  unfold setField
+  dsimp only
+  repeat' split
+  all_goals first | (intro h; cases h; done) | (exfalso; omega)
+
+/-- For every double x — NaN, ±Inf, huge, negative, fractional — `$x`, `$x = v`, `NF = x` and `ARGC = x` return a value or an
+error: the slice accesses of getField/setField are in range (no `stuck`). -/
+theorem field_index_total (x : Num) (n : Nat) :
+    getField n (floatToInt x) ≠ .stuck ∧ setField n (floatToInt x) ≠ .stuck :=
+  ⟨getField_total n _, setField_total n _⟩
+
+/-- the guards bound what one assignment can allocate -/
+theorem setField_bounded (n : Nat) (i : Int) (n' slot : Nat) (h : setField n i = .ok n' slot) :
+    n' ≤ max n Consts.maxFieldIndex ∧ slot < n' := by
+  revert h
+  unfold setField
+  dsimp only
+  repeat' split
+  all_goals first | (intro h; cases h; done) | (intro h; injection h with h1 h2; subst h1; subst h2; simp only [Consts.maxFieldIndex] at *; constructor <;> omega)
+
+theorem setNF_bounded (x : Num) (k : Nat) (h : setNF x = some k) : k ≤ Consts.maxFieldIndex := by
+  revert h
+  unfold setNF
+  dsimp only
+  repeat' split
+  all_goals first | (intro h; cases h; done) | (intro h; injection h with h1; subst h1; simp only [Consts.maxFieldIndex] at *; omega)
+
+/-- oversized field numbers and NF values are errors -/
+example : setField 3 (floatToInt (.fin false 1 100)) = .error := by decide
+example : setField 3 (floatToInt (.inf false)) = .error := by decide
+example : setField 3 (floatToInt .nan) = .ignored := by decide
+example : setField 3 Consts.maxFieldIndex = .ok Consts.maxFieldIndex (Consts.maxFieldIndex - 1) ∧ setField 3 (Consts.maxFieldIndex + 1) = .error := by decide +kernel
+example : setNF (.inf false) = none ∧ setNF .nan = none ∧ setNF (.fin true 1 0) = none ∧ setNF (.fin false 5 (-1)) = some 2 := by decide
+example : getField 3 (floatToInt (.fin true 1 0)) = .field 2 := by decide
+
+/-! ## 4. the shape table is the one in the source now (regenerated facts) -/
+
+/-- opcode numbering: the model dispatches on the generated names; every name has an operand count except the sentinel -/
+theorem names_covered : Opcodes.opcodes.all (fun n => (operandCount n).isSome || n == "EndOpcode") = true := by decide +kernel
+
+theorem gen_matches_operands : operandsAgree = true := by decide +kernel
+theorem gen_matches_fixed_effects : fixedEffectsAgree = true := by decide +kernel
+theorem gen_matches_builtin_effects : builtinEffectsAgree = true := by decide +kernel
+theorem gen_matches_dynamic : dynamicCases = expectedDynamicCases := by decide +kernel
+theorem gen_matches_exits :
+    exitKinds = [("Next", 1), ("Nextfile", 2), ("Exit", 3), ("ExitStatus", 3), ("BreakForIn", 4), ("Return", 5), ("ReturnNull", 5)] := by
+  decide +kernel
+/-- only Nop and the sentinel have no `case` in the dispatch switch; every builtin has a case -/
+theorem gen_matches_missing : C02Arity.vmMissing.map opName = ["Nop", "EndOpcode"] ∧ C02Arity.builtinCases.length = C02Arity.numBuiltins := by
+  decide +kernel
+/-- every special-variable index a verified operand can hold has a case in getSpecial and setSpecial (their `default:` panics) -/
+theorem gen_matches_specials :
+    C02Arity.getSpecialCases = C02Arity.numSpecials ∧ C02Arity.setSpecialCases = C02Arity.numSpecials := by decide
+
+end GoawkModel.C02
